@@ -95,7 +95,9 @@ func batch(res *evid.Result, bi int, root string) {
 	base := gen.NewFile(r, "p", evid.Pick(30, 50), true)
 	// same-shape siblings: one topology hash, different literals (so that each scores clearly
 	// below 0.99 against the others' signatures)
-	for k, lits := range [][3]string{{"alpha-marker-0001", "1000", "x"}, {"a much longer second literal with other characters: ÄÖÜ €", "70000", "yyyyyyyyyyyyyyyyyyyyyy"}, {"z", "123456789", "http://203.0.113.9/stage2.bin?id="}} {
+	for k, lits := range [][3]string{{"alpha-marker-0001", "1000", "x"}, {"a much longer second literal with other characters: ÄÖÜ €", "70000", "yyyyyyyyyyyyyyyyyyyyyy"}, {"z", "123456789", "http://203.0.113.9/stage2.bin?id="},
+		// string data of very low entropy, followed (in ID order) by one of entropy exactly zero
+		{"----------------+", "4242", "-----"}, {"aaaaaaaa", "5151", "aaaa"}} {
 		name := fmt.Sprintf("Sib%d", k)
 		base.Funcs = append(base.Funcs, gen.Func{Name: name, Sig: gen.SigII, Exec: true, Tags: []string{"sibling-shape"}, Text: fmt.Sprintf(`func %s(a int, b int) (res int) {
 	res = len(hs1(%q)) + a*%s
